@@ -158,6 +158,12 @@ def _chunk(jobs):
     for text, opts, sd in jobs:
         rng = random.Random(sd)
         root = parse(text, **opts)
+        if sd % 3 == 0:
+            # visit() accepts any node as the root: an operation, a field, a type, a value, ...
+            inner = Reflect(root).nodes
+            cands = [n for n in inner if children(n)]
+            if cands:
+                root = rng.choice(cands)
         refl = Reflect(root)
         snap = snapshot(root)
         idents = [id(n) for n in refl.nodes]
